@@ -13,7 +13,7 @@ LEAN_MODULES = ["B2Z.Props.C03"]
 THEOREMS = [
     "B2Z.Pipe.C03_order_invariant", "B2Z.Pipe.C03_decomposition_invariant", "B2Z.Pipe.C03_chunks_only_change_grid",
     "B2Z.Pipe.C03_config_invariant", "B2Z.Pipe.C03_max_chunks_prefix", "B2Z.Pipe.C01_pipeline_refines_spec",
-    "B2Z.Checks.C03_file_order_invariant",
+    "B2Z.Checks.C03_file_order_invariant", "B2Z.Split.explodeOrder_meta", "B2Z.Split.C03_split_files_any_order",
 ]
 ASSUMPTIONS = [
     "PARTIAL: byte determinism of Blosc/zarr and the OS scheduler are outside the model: byte identity of repeated runs is observed, not proved",
@@ -27,15 +27,21 @@ RULE = ("one generated rich VCF per case, converted by a synchronous 1-partition
 LEVEL_TEXT = ("Lean: corollaries of the pipeline refinement theorem — the stored rows do not depend on the explode tiling, the flush "
               "schedule, the number of encode partitions or their execution order (C03_order_invariant, "
               "C03_decomposition_invariant), chunk sizes change only the grid (C03_chunks_only_change_grid) and a chunk cap "
-              "yields the prefix (C03_max_chunks_prefix). PARTIAL: byte determinism and OS scheduling are observed only. Tied to "
+              "yields the prefix (C03_max_chunks_prefix); the partition order does not depend on the order files are passed "
+              "(C03_file_order_invariant) and a file cut into non-overlapping pieces passed in any permutation yields the "
+              "unsplit record list (Split.C03_split_files_any_order). PARTIAL: byte determinism and OS scheduling are observed only. Tied to "
               "the code by real runs of every decomposition against one synchronous reference, comparing values, metadata and "
               "chunk bytes, including one-shot vs distributed commands and split inputs in any order.")
 LEVEL_NOTE = "Trusted: Lean kernel + standard axioms; Blosc/zarr byte determinism and the scheduler observed only; relies on C04, C07, C14."
 TECHNIQUE = "Lean 4 corollaries of the pipeline refinement theorem + differential runs of real decompositions against a synchronous reference"
 
 
-def compare(ctx, ref, ref_hashes, out, inp, what, same_grid=True, prefix=None):
+def compare(ctx, ref, ref_hashes, out, inp, what, same_grid=True, prefix=None, ignore_header=False):
     got, attrs = vczspec.read_store(out)
+    if ignore_header:      # the pieces carry their own header lines: which text is kept is compared between orders instead
+        ref = (ref[0], {k: v for k, v in ref[1].items() if k != "vcf_header"})
+        attrs = {k: v for k, v in attrs.items() if k != "vcf_header"}
+        ref_hashes = None
     exp = ref[0]
     if not same_grid and prefix is None:
         # the region index summarises per variant chunk: it legitimately follows the chunk grid
@@ -58,7 +64,7 @@ def compare(ctx, ref, ref_hashes, out, inp, what, same_grid=True, prefix=None):
                     {**inp, "array": name}, e, g)
     if prefix is None and attrs != ref[1]:
         ctx.violate(f"{what}: root attributes differ from the reference", inp, str(ref[1])[:200], str(attrs)[:200])
-    if same_grid and prefix is None and not diffs:
+    if same_grid and prefix is None and not diffs and ref_hashes is not None:
         h = convlib.file_hashes(out)
         if h != ref_hashes:
             bad = sorted(k for k in set(h) | set(ref_hashes) if h.get(k) != ref_hashes.get(k))[:5]
@@ -107,7 +113,7 @@ def one_input(ctx, spec, work, tag):
     variants.append(("repeat", {}))
     variants.append(("chunks", {"variants_chunk_size": rng.choice([1, 2, 3, max(1, n // 2), n + 1]), "samples_chunk_size": rng.choice([1, 2, 7])}))
     variants.append(("cap", {"variants_chunk_size": rng.choice([1, 2, 3]), "max_variant_chunks": rng.choice([1, 2, 3])}))
-    variants.append(("split", {"files": rng.choice([2, 3, 4])}))
+    variants.append(("split", {"files": rng.choice([3, 4, 5])}))
     for what, opt in variants:
         out = pathlib.Path(work) / f"{tag}_{what}.zarr"
         icf = pathlib.Path(work) / f"{tag}_{what}.icf"
@@ -150,16 +156,39 @@ def one_input(ctx, spec, work, tag):
                     continue
                 paths = []
                 names = rng.sample(["9", "10", "11", "1", "2", "a", "B", "c", "07", "100"], len(pieces))
+                own_headers = rng.random() < 0.85
                 for i, recs in enumerate(pieces):
-                    # file names must not encode the genomic order (results are sorted by path internally)
-                    paths.append(vcfgen.materialise(spec, pathlib.Path(work) / f"{tag}_part{names[i]}", kind, records=recs,
+                    # file names must not encode the genomic order (results are sorted by path internally); like the pieces
+                    # `bcftools view -r` cuts, each may carry a header line of its own (same parsed metadata, different text)
+                    pspec = {**spec, "extra_header": spec.get("extra_header", []) + [f"##pieceCommand=view -r piece{i}"]} if own_headers else spec
+                    paths.append(vcfgen.materialise(pspec, pathlib.Path(work) / f"{tag}_part{names[i]}", kind, records=recs,
                                                     block_size=rng.choice([300, 0xFF00])))
-                rng.shuffle(paths)
-                convlib.explode(icf, paths, partitions=rng.choice([len(paths), 2 * len(paths), 7]), column_chunk_size=16)
-                shutil.rmtree(out, ignore_errors=True)
-                vcf2zarr.encode(icf, out, worker_processes=0)
-                compare(ctx, ref, ref_hashes, out, {**inp, "pieces": [len(p) for p in pieces]},
-                        f"input split into {len(paths)} files passed in shuffled order")
+                inp_s = {**inp, "pieces": [len(p) for p in pieces], "own_header_lines": own_headers}
+                seen = []
+                for rnd in range(3):
+                    order = list(paths)
+                    rng.shuffle(order)
+                    if rnd == 1:
+                        order = order[::-1] if order[::-1] != seen[0][0] else order[1:] + order[:1]
+                    shutil.rmtree(icf, ignore_errors=True)
+                    if rnd == 1:      # the one-shot command with a real worker pool: scan results arrive in completion order
+                        convlib.explode(icf, order, workers=2, column_chunk_size=16)
+                    else:
+                        convlib.explode(icf, order, partitions=rng.choice([len(paths), 2 * len(paths), 7]), column_chunk_size=16)
+                    shutil.rmtree(out, ignore_errors=True)
+                    vcf2zarr.encode(icf, out, worker_processes=0)
+                    compare(ctx, ref, ref_hashes, out, inp_s, f"input split into {len(paths)} files passed in shuffled order",
+                            ignore_header=own_headers)
+                    seen.append((order, vczspec.read_store(out)[1], convlib.file_hashes(out)))
+                    ctx.count("split_orders")
+                for order, attrs, hashes in seen[1:]:
+                    if attrs != seen[0][1] or hashes != seen[0][2]:
+                        bad = sorted(k for k in set(hashes) | set(seen[0][2]) if hashes.get(k) != seen[0][2].get(k))[:4]
+                        ka = sorted(k for k in set(attrs) | set(seen[0][1]) if attrs.get(k) != seen[0][1].get(k))
+                        ctx.violate(f"the same {len(paths)} files passed in two orders ({[p.name for p in seen[0][0]]} / "
+                                    f"{[p.name for p in order]}) give different stores: root attributes {ka}, files {bad}",
+                                    inp_s, "identical stores", {"attrs": ka, "files": bad})
+                        break
         except Exception as e:  # noqa: BLE001
             ctx.violate(f"variant {what} {opt} failed while the reference succeeded: {type(e).__name__}: {str(e)[:200]}", inp,
                         "same store as the reference", repr(e)[:200])
